@@ -592,14 +592,28 @@ def _split_code_lines(ast_nodes, text):
         return
     assert text.startpos <= ast_nodes[0].startpos
     assert ast_nodes[-1].startpos < text.endpos
-    if text.startpos != ast_nodes[0].startpos:
+    def split_pos(node):
+        # Where the text of ``node`` starts.  Whitespace in front of the first
+        # token on its line (a form feed, say) belongs to the statement, not
+        # to whatever precedes it.  (An import statement is replaced as a
+        # whole when it is rewritten, so there it is left out.)
+        pos = node.startpos
+        if isinstance(node, (ast.Import, ast.ImportFrom)):
+            return pos
+        line_start = max(FilePos(pos.lineno, 1), text.startpos)
+        if line_start < pos and not text[line_start:pos].joined.strip(" \t\f"):
+            return line_start
+        return pos
+    first_pos = split_pos(ast_nodes[0])
+    if text.startpos != first_pos:
         # Starting noncode lines.
-        yield ([], text[text.startpos:ast_nodes[0].startpos])
+        yield ([], text[text.startpos:first_pos])
     end_sentinel = _DummyAst_Node()
     end_sentinel.startpos = text.endpos
     for node, next_node in zip(ast_nodes, ast_nodes[1:] + [end_sentinel]):
-        startpos = node.startpos
-        next_startpos = next_node.startpos
+        startpos = split_pos(node)
+        next_startpos = (next_node.startpos if next_node is end_sentinel
+                         else split_pos(next_node))
         assert startpos < next_startpos
         # We have the start position of this node.  Figure out the end
         # position, excluding noncode lines (standalone comments and blank
